@@ -693,11 +693,13 @@ func (c *FnCtx) appendSlice(st *State, s, t Val, pos token.Pos) Val {
 	c.eng.onSliceWrite(c, st, s, fits, pos)
 	dstArr := "(select " + H + " (s-arr " + s.E + "))"
 	newArrIn := c.sc.Fresh("apIn", "(Array Int "+es+")")
-	c.sc.Assume(fmt.Sprintf("(forall ((j Int)) (! (= (select %[1]s j) (ite (and (<= (+ (s-off %[2]s) (s-len %[2]s)) j) (< j (+ (s-off %[2]s) %[3]s))) (select %[4]s (+ (s-off %[5]s) (- j (+ (s-off %[2]s) (s-len %[2]s))))) (select %[6]s j))) :pattern ((select %[1]s j))))", newArrIn, s.E, newLen, srcArr, t.E, dstArr))
+	c.sc.Assume(fmt.Sprintf("(forall ((j Int)) (! (= (select %[1]s j) (ite (and (<= (+ (s-off %[2]s) (s-len %[2]s)) j) (< j (+ (s-off %[2]s) %[3]s))) (select %[4]s (+ (s-off %[5]s) (- j (+ (s-off %[2]s) (s-len %[2]s))))) (select %[6]s j))) :pattern ((select %[1]s j)) :pattern ((select %[6]s j))))", newArrIn, s.E, newLen, srcArr, t.E, dstArr))
 	// fresh variant
 	fresh := c.newRef(st, "aparr")
 	newArrOut := c.sc.Fresh("apOut", "(Array Int "+es+")")
 	c.sc.Assume(fmt.Sprintf("(forall ((j Int)) (! (= (select %[1]s j) (ite (and (<= 0 j) (< j (s-len %[2]s))) (select %[3]s (+ (s-off %[2]s) j)) (ite (and (<= (s-len %[2]s) j) (< j %[4]s)) (select %[5]s (+ (s-off %[6]s) (- j (s-len %[2]s)))) %[7]s))) :pattern ((select %[1]s j))))", newArrOut, s.E, dstArr, newLen, srcArr, t.E, c.ty.Zero(elem)))
+	// the same copy fact triggered from the old elements (so a fact known about s[i] carries over to the result)
+	c.sc.Assume(fmt.Sprintf("(forall ((p Int)) (! (=> (and (<= (s-off %[2]s) p) (< p (+ (s-off %[2]s) (s-len %[2]s)))) (= (select %[1]s (- p (s-off %[2]s))) (select %[3]s p))) :pattern ((select %[3]s p))))", newArrOut, s.E, dstArr))
 	newCap := c.sc.Fresh("apcap", sInt)
 	c.sc.Assume("(>= " + newCap + " " + newLen + ")")
 	c.heapSet(st, h, Ite(fits, "(store "+H+" (s-arr "+s.E+") "+newArrIn+")", "(store "+H+" "+fresh+" "+newArrOut+")"))
@@ -786,6 +788,7 @@ type rangeState struct {
 	mapT  *types.Map
 	m     string
 	keys  string // (Array Int K): enumeration
+	idx   string // (Array K Int): position of each present key
 	n     string // number of keys
 	pos   string // local key holding the position
 	has0  string
@@ -815,7 +818,7 @@ func (c *FnCtx) execRange(fr *Frame, st *State, i *ssa.Range) {
 	}
 	key := fmt.Sprintf("%d:range:%s", fr.id, i.Name())
 	st.locals[key] = Val{T: types.Typ[types.Int], E: "0"}
-	c.ranges[key] = &rangeState{mapT: mt, m: x.E, keys: keys, n: n, pos: key, has0: H, val0: V}
+	c.ranges[key] = &rangeState{mapT: mt, m: x.E, keys: keys, idx: idxOf, n: n, pos: key, has0: H, val0: V}
 	fr.vals[i] = Val{T: i.Type(), E: key}
 }
 
